@@ -49,7 +49,7 @@ class IndexedSet(Contract):
     def post(self, c0, c1, a, res):
         return {"stored": c1.get(self.key, a.instance.t) == to_val(a.value),
                 "wf_static": forest.wf_static(c1), "wf_parents": forest.wf_parents(c1),
-                "inv_region": forest.inv_region(c1)}
+                **forest.inv_region_parts(c1)}
 
 
 def register(reg):
